@@ -326,3 +326,43 @@ Proof.
 Qed.
 
 End Hist2.
+
+(* the new guards ask less than the ones of the first round *)
+Section Weaker.
+Variable lit : string -> outcome litres.
+Variable fl : string -> outcome flres.
+
+Lemma act_ok_ok2 : forall a st, act_ok a st = true -> act_ok2 a st = true.
+Proof.
+  intros a st H. unfold act_ok in H. unfold act_ok2.
+  apply andb_true_iff in H. destruct H as [H Ht]. apply andb_true_iff in H. destruct H as [Hn _].
+  apply negb_true_iff in Hn. rewrite Hn. simpl.
+  destruct (act_target a st) as [[[o r] c]|]; [exact Ht|reflexivity].
+Qed.
+
+Lemma acts_ok_ok2 : forall value vo acts st,
+  acts_ok lit fl value vo acts st = true -> acts_ok2 lit fl value vo acts st = true.
+Proof.
+  intros value vo acts. induction acts as [|a r IH]; intros st H; simpl in *; auto.
+  apply andb_true_iff in H. destruct H as [H1 H2]. rewrite (act_ok_ok2 _ _ H1). simpl.
+  destruct (apply_action lit fl value vo a st); auto.
+Qed.
+
+Lemma op_ok_ok2 : forall op d, op_ok lit fl op d = true -> op_ok2 lit fl op d = true.
+Proof.
+  intros op d H. unfold op_ok in H. apply andb_true_iff in H. destruct H as [_ H].
+  destruct op as [cs v f vo|segs v f vo|cs]; unfold op_ok2.
+  - apply acts_ok_ok2. exact H.
+  - apply andb_true_iff in H. destruct H as [_ H].
+    destruct (create_walk lit segs v vo d) as [vo' [[[d1 pc] n1]|e]]; auto.
+    apply andb_true_iff in H. destruct H as [_ H]. apply acts_ok_ok2. exact H.
+  - apply andb_true_iff in H. tauto.
+Qed.
+
+Theorem hist_ok_ok2 : forall ops d, hist_ok lit fl ops d = true -> hist_ok2 lit fl ops d = true.
+Proof.
+  induction ops as [|op r IH]; intros d H; simpl in *; auto.
+  apply andb_true_iff in H. destruct H as [H1 H2]. rewrite (op_ok_ok2 _ _ H1). simpl.
+  destruct (run_op lit fl op d); auto.
+Qed.
+End Weaker.
